@@ -672,6 +672,55 @@ def j_c13(sh, a, b):
     return res
 
 
+def race_once(rharness, ops, goroutines, iterations, gomaxprocs=None):
+    """run the race-detector stress on an op file; returns None or a description of what went wrong"""
+    env = dict(os.environ, GORACE='exitcode=66 halt_on_error=1')
+    if gomaxprocs:
+        env['VERIF_GOMAXPROCS'] = str(gomaxprocs)
+    p = subprocess.run([rharness, 'race', str(goroutines), str(iterations)], input=ops, capture_output=True, text=True, env=env)
+    if p.returncode == 66 or 'DATA RACE' in p.stderr:
+        lines = [l for l in p.stderr.split('\n') if l.strip()]
+        where = [l.strip() for l in lines if 'gregoryv/mq' in l or '/repo/' in l][:4]
+        return 'data race reported by the Go race detector: ' + ' | '.join(where)[:400]
+    if p.returncode == 3:
+        bad = [l for l in p.stdout.split('\n') if l.startswith('race bad ')]
+        return (bad[0][9:] if bad else 'concurrent result differs from the sequential one')
+    if p.returncode != 0:
+        return 'race stress exited with status %d: %s' % (p.returncode, p.stderr[-200:])
+    return None
+
+
+def extra_c13(pid, tier, seed, harness, stats, h):
+    """dynamic support for C13: goroutines performing read-only operations on shared packets under the
+    race detector, every concurrent WriteTo compared with the sequential bytes"""
+    rh, err = h['build_harness'](race=True)
+    if rh is None:
+        h['log'](err)
+        yield ('nofail', dict(property=pid, kind='obligation', what='cannot build the race-detector harness'))
+        return
+    plan = [(None, 8, 60, 300)] if tier == 'quick' else [(1, 4, 200, 1500), (2, 8, 200, 1500), (4, 8, 200, 1500), (None, 16, 200, 3000)]
+    total = 0
+    for k, (procs, gor, iters, ncases) in enumerate(plan):
+        ops = subprocess.run([harness, 'gen', 'pkt', str(seed * 100 + k), str(ncases)], capture_output=True, text=True).stdout
+        bad = race_once(rh, ops, gor, iters, procs)
+        total += ncases * gor * iters // max(1, ncases) * ncases // ncases
+        stats['hist']['race-run gomaxprocs=%s goroutines=%d' % (procs or 'all', gor)] = ncases
+        stats['evaluations'] += ncases
+        if bad:
+            # narrow down to a chunk of cases that still shows it
+            cases = ops.split('RESET\n')
+            chunk_ops = ops
+            for a in range(1, len(cases), 25):
+                sub = 'RESET\n' + 'RESET\n'.join(cases[a:a + 25])
+                if race_once(rh, sub, gor, iters * 3, procs):
+                    chunk_ops = sub
+                    break
+            yield ('concrete', dict(property=pid, kind='concrete', what=bad, race=True, goroutines=gor, iterations=iters * 3,
+                                    gomaxprocs=procs, seed=seed, ops=chunk_ops.split('\n')[:4000],
+                                    note='goroutine schedules are not exactly replayable; the replay re-runs the same packets under the race detector'))
+            return
+
+
 def per_case(fn):
     def js(sh, ctx):
         return [fn(sh, a, b) for a, b in ctx['split_cases'](sh)]
@@ -710,7 +759,8 @@ PROPS = {
     'C12': P(per_case(j_c12), [('hist', 1000)], [('hist', 40000)],
              'setter histories of length 1..25 with a VIEW after every step; distinct by (type, setter set, boundary lengths, length)'),
     'C13': P(per_case(j_c13), [('pkt', 200)], [('pkt', 2000)],
-             'race-detector stress over shared packets (see coverage.race) plus sequential encodings; distinct as C01'),
+             'sequential encodings against the model, plus goroutines doing read-only operations on shared packets under the Go race detector (input_distribution: race-run …); distinct as C01',
+             extra=extra_c13),
     'C14': P(per_case(j_c14), [('pool', 500)], [('pool', 20000)],
              'histories over a pool of 2..5 packets (decode, scribble over the decoder input, set, encode) with all packets viewed after every step; distinct = histories containing a scribble'),
     'C15': P(per_case(j_c15), [('vb', 4000)], [('vb', 100000)],
